@@ -435,7 +435,8 @@ export class SchemaPrintingContext {
   }
 
   hasDefinition(name: string): boolean {
-    return name in this.collectedDefinitions;
+    // an own entry: a type may be named toString, constructor, ...
+    return Object.prototype.hasOwnProperty.call(this.collectedDefinitions, name);
   }
 
   isDefinitionInProgress(name: string): boolean {
@@ -443,7 +444,9 @@ export class SchemaPrintingContext {
   }
 
   getNamedTypeSchemaOverride(name: string): Runtype | undefined {
-    return this.namedTypeSchemaOverrides[name];
+    return Object.prototype.hasOwnProperty.call(this.namedTypeSchemaOverrides, name)
+      ? this.namedTypeSchemaOverrides[name]
+      : undefined;
   }
 
   markDefinitionInProgress(name: string): void {
